@@ -62,7 +62,8 @@ Inductive out :=
     and the fill discipline (C04, C05).  Nothing in the model reads it. *)
 Inductive effect :=
 | ExtIn (a : Q) | ExtOut (a : Q)
-| Xfer (pid : string) (a : Q)          (* master -> portfolio (negative: back) *)
+| XferIn (pid : string) (a : Q) (t : Z)    (* master -> portfolio, at broker time t *)
+| XferOut (pid : string) (a : Q) (t : Z)   (* portfolio -> master *)
 | Fill (pid : string) (tx : txn).
 
 Section WithMarket.
@@ -185,7 +186,7 @@ Section WithMarket.
             else match pf_subscribe (a_pf ac) (b_dt b) a with
             | (pf', Ok _) =>
                 (set_cash (set_accts b (acct_set pid (mkAcct pf' (a_q ac)) (b_accts b))) (qsub (b_cash b) a),
-                 Ok ONone, [Xfer pid a])
+                 Ok ONone, [XferIn pid a (b_dt b)])
             | (pf', Err e) => (set_accts b (acct_set pid (mkAcct pf' (a_q ac)) (b_accts b)), Err e, [])
             end
         end
@@ -198,7 +199,7 @@ Section WithMarket.
             else match pf_withdraw (a_pf ac) (b_dt b) a with
             | (pf', Ok _) =>
                 (set_cash (set_accts b (acct_set pid (mkAcct pf' (a_q ac)) (b_accts b))) (qadd (b_cash b) a),
-                 Ok ONone, [Xfer pid (- a)])
+                 Ok ONone, [XferOut pid a (b_dt b)])
             | (pf', Err e) => (set_accts b (acct_set pid (mkAcct pf' (a_q ac)) (b_accts b)), Err e, [])
             end
         end
